@@ -19,7 +19,7 @@ use paseto_core::{LocalKey, PasetoError, PublicKey, SecretKey};
 use paseto_json::{Json, RegisteredClaims};
 use serde::{Deserialize, Serialize};
 
-use crate::payloads::{Flag, Probe, Raw, RawFooter};
+use crate::payloads::{Flag, Probe, Raw, RawC, RawFooter};
 
 // ------------------------------------------------------------------------------------------
 // identifiers
@@ -125,6 +125,18 @@ pub enum PayloadKind {
     Probe,
     Json,
     Reg,
+    /// raw bytes under an encoding with header suffix "c" (`v4c.local.`)
+    RawC,
+}
+
+impl PayloadKind {
+    /// the encoding suffix that is part of the token header (and of what is authenticated)
+    pub fn suffix(self) -> &'static str {
+        match self {
+            PayloadKind::RawC => "c",
+            _ => "",
+        }
+    }
 }
 
 #[derive(Clone, Copy, Debug, PartialEq, Eq, PartialOrd, Ord, Hash, Serialize, Deserialize)]
@@ -407,6 +419,7 @@ pub enum Claims {
     Probe(Vec<u8>),
     Json(serde_json::Value),
     Reg(RegSpec),
+    RawC(Vec<u8>),
 }
 
 impl Claims {
@@ -416,6 +429,7 @@ impl Claims {
             Claims::Probe(_) => PayloadKind::Probe,
             Claims::Json(_) => PayloadKind::Json,
             Claims::Reg(_) => PayloadKind::Reg,
+            Claims::RawC(_) => PayloadKind::RawC,
         }
     }
 }
@@ -479,6 +493,11 @@ impl ClaimLeaves for Raw {
     }
 }
 impl ClaimLeaves for Probe {
+    fn leaf(_: &VSpec) -> Option<DynV<Self>> {
+        None
+    }
+}
+impl ClaimLeaves for RawC {
     fn leaf(_: &VSpec) -> Option<DynV<Self>> {
         None
     }
@@ -593,6 +612,10 @@ pub trait Backend: Send + Sync {
     ) -> Out<String>;
     /// parse only: returns (re-displayed string, unverified footer bytes as re-encoded by the footer type)
     fn parse_token(&self, purpose: Purp, pk: PayloadKind, fk: FootKind, s: &str) -> Out<(String, Foot)>;
+    /// "refresh": unseal `s` and seal the very object that came out (optionally with replaced
+    /// claims) under `seal_key`
+    #[allow(clippy::too_many_arguments)]
+    fn reseal(&self, purpose: Purp, unseal_key: &KeyH, seal_key: &KeyH, s: &str, pk: PayloadKind, fk: FootKind, aad: &[u8], new_claims: Option<&Claims>, new_aad: &[u8]) -> Out<String>;
     #[allow(clippy::too_many_arguments)]
     fn unseal(
         &self,
@@ -720,6 +743,17 @@ impl PayloadIo for Raw {
         Claims::Raw(self.0)
     }
 }
+impl PayloadIo for RawC {
+    fn from_claims(c: &Claims) -> Result<Self, PasetoError> {
+        match c {
+            Claims::RawC(b) => Ok(RawC(b.clone())),
+            _ => harness_err("claims/payload kind mismatch"),
+        }
+    }
+    fn to_claims(self) -> Claims {
+        Claims::RawC(self.0)
+    }
+}
 impl PayloadIo for Probe {
     fn from_claims(c: &Claims) -> Result<Self, PasetoError> {
         match c {
@@ -822,6 +856,10 @@ macro_rules! by_payload {
                 type $M = RegisteredClaims;
                 $body
             }
+            PayloadKind::RawC => {
+                type $M = RawC;
+                $body
+            }
         }
     };
 }
@@ -893,6 +931,22 @@ where
     let validator = compile::<M>(v);
     let u = t.unseal(key, aad, &validator)?;
     Ok((u.claims.to_claims(), u.footer.to_foot()))
+}
+
+fn reseal_g<V, P, M, F>(ukey: &Key<V, P>, skey: &Key<V, P::SealingKey>, s: &str, aad: &[u8], new_claims: Option<&Claims>, new_aad: &[u8]) -> Result<String, PasetoError>
+where
+    V: paseto_core::version::UnsealingVersion<P> + SealingVersion<P>,
+    P: Purpose,
+    M: PayloadIo,
+    F: FootIo,
+{
+    let t = SealedToken::<V, P, M, F>::from_str(s)?;
+    let validator = compile::<M>(&VSpec::None);
+    let mut u = t.unseal(ukey, aad, &validator)?;
+    if let Some(c) = new_claims {
+        u.claims = M::from_claims(c)?;
+    }
+    Ok(u.seal(skey, new_aad)?.to_string())
 }
 
 fn craft_params<V: PwWrapVersion + HasKey<Local>>(hdr: &str, p: &PwParams) -> Result<V::Params, PasetoError> {
@@ -1097,6 +1151,15 @@ impl<V: Full> Backend for B<V> {
             by_payload!(pk, M => by_foot!(fk, F => match purpose {
                 Purp::Local => parse_g::<V, Local, M, F>(s),
                 Purp::Public => parse_g::<V, Public, M, F>(s),
+            }))
+        })
+    }
+
+    fn reseal(&self, purpose: Purp, unseal_key: &KeyH, seal_key: &KeyH, s: &str, pk: PayloadKind, fk: FootKind, aad: &[u8], new_claims: Option<&Claims>, new_aad: &[u8]) -> Out<String> {
+        guard(|| {
+            by_payload!(pk, M => by_foot!(fk, F => match purpose {
+                Purp::Local => reseal_g::<V, Local, M, F>(down::<LocalKey<V>>(unseal_key)?, down::<LocalKey<V>>(seal_key)?, s, aad, new_claims, new_aad),
+                Purp::Public => reseal_g::<V, Public, M, F>(down::<PublicKey<V>>(unseal_key)?, down::<SecretKey<V>>(seal_key)?, s, aad, new_claims, new_aad),
             }))
         })
     }
